@@ -1,7 +1,7 @@
 import AtsimModel.Lemmas.ExprReal
 import AtsimModel.Gen.Forms
 import AtsimModel.Gen.Splines
-import AtsimModel.Props.C07
+import AtsimModel.Lemmas.PolyReal
 import Mathlib.Tactic.NormNum
 import Mathlib.Tactic.Positivity
 /-!
@@ -12,6 +12,7 @@ import Mathlib.Tactic.Positivity
 it enters as the HYPOTHESIS that the coefficient vector solves the generated system (`Solves`); the residual of that
 hypothesis on the real code is measured by `harness/props/C10.py`.
 -/
+set_option linter.unusedTactic false
 namespace Atsim.C10
 open Atsim Atsim.E Atsim.Gen Real
 
@@ -63,6 +64,24 @@ theorem C10_exp_shape (c0 c1 c2 c3 c4 c5 C r : ℝ) :
     ev [c0, c1, c2, c3, c4, c5, C] exp_spline_call r
       = Real.exp (c0 + c1 * r + c2 * r ^ 2 + c3 * r ^ 3 + c4 * r ^ 4 + c5 * r ^ 5) + C := by
   simp only [ev, evalR, envOf, exp_spline_call, List.getD_cons_succ, List.getD_cons_zero]
+  form_close
+
+/-- shape of the coded first derivative (any algebraically equal spelling of the Python expression is accepted: `form_close`) -/
+theorem exp_deriv_shape (c0 c1 c2 c3 c4 c5 C r : ℝ) :
+    ev [c0, c1, c2, c3, c4, c5, C] exp_spline_deriv r
+      = (c1 + r * (2 * c2 + r * (3 * c3 + 4 * c4 * r + 5 * c5 * r ^ 2)))
+        * Real.exp (c0 + r * (c1 + r * (c2 + r * (c3 + r * (c4 + c5 * r))))) := by
+  simp only [ev, evalR, envOf, exp_spline_deriv, List.getD_cons_succ, List.getD_cons_zero, Nat.cast_ofNat, Nat.cast_one, div_one]
+  form_close
+
+/-- shape of the coded second derivative -/
+theorem exp_deriv2_shape (c0 c1 c2 c3 c4 c5 C r : ℝ) :
+    ev [c0, c1, c2, c3, c4, c5, C] exp_spline_deriv2 r
+      = (2 * c2 + 6 * c3 * r + 12 * c4 * r ^ 2 + 20 * c5 * r ^ 3
+          + (c1 + 2 * c2 * r + 3 * c3 * r ^ 2 + 4 * c4 * r ^ 3 + 5 * c5 * r ^ 4) ^ 2)
+        * Real.exp (c0 + c1 * r + c2 * r ^ 2 + c3 * r ^ 3 + c4 * r ^ 4 + c5 * r ^ 5) := by
+  simp only [ev, evalR, envOf, exp_spline_deriv2, List.getD_cons_succ, List.getD_cons_zero, Nat.cast_ofNat, Nat.cast_one, div_one]
+  form_close
 
 /-- join at one end from the three rows of the system at that end (value, slope, curvature) -/
 theorem exp_join (B0 B1 B2 B3 B4 B5 C x y d1 d2 : ℝ) (hy : 0 < y)
@@ -106,14 +125,13 @@ theorem C10_exp_C2 (sx ex sy ey d1s d1e d2s d2e C c0 c1 c2 c3 c4 c5 : ℝ) (hsy 
     List.sum_cons, List.sum_nil, evalR, envOf, List.getD_cons_succ, List.getD_cons_zero,
     Nat.cast_ofNat, Nat.cast_one, Nat.cast_zero, div_one] at h
   obtain ⟨r1, r2, r3, r4, r5, r6, -⟩ := h
-  simp only [ev, evalR, envOf, exp_spline_call, exp_spline_deriv, exp_spline_deriv2, List.getD_cons_succ,
-    List.getD_cons_zero, Nat.cast_ofNat, Nat.cast_one, div_one]
+  simp only [C10_exp_shape, exp_deriv_shape, exp_deriv2_shape]
   exact ⟨exp_join c0 c1 c2 c3 c4 c5 C sx sy d1s d2s hsy (by linarith) (by linarith) (by linarith),
     exp_join c0 c1 c2 c3 c4 c5 C ex ey d1e d2e hey (by linarith) (by linarith) (by linarith)⟩
 
 /-! ### four-range Buckingham spline: quintic then cubic meeting at r_min with zero slope -/
 
-open Atsim.C07 in
+open Atsim.Poly in
 /-- if the ten coefficients solve the generated 10×10 system then: the quintic matches value, slope and curvature of the start
     potential at detach; has zero slope at r_min; quintic and cubic agree in value, slope and curvature at r_min; the cubic matches
     value, slope and curvature of the end potential at attach.  (`polyVal/polyD1/polyD2` are `polynomial.__call__/deriv/deriv2`,
@@ -139,10 +157,12 @@ theorem C10_buck4_C2 (rdp rmin rap v0 d0 dd0 v1 d1 dd1 a0 a1 a2 a3 a4 a5 b0 b1 b
 /-- `as.buck4 A rho C rd rm ra` uses `bornmayer(A, rho)`; the documented shorthand uses `as.buck A rho 0`: the same function -/
 theorem C10_buck4_start (A rho r : ℝ) : ev [A, rho, 0] buck_call r = ev [A, rho] bornmayer_call r := by
   simp [ev, evalR, envOf, buck_call, bornmayer_call]
+  form_close
 
 /-- the end potential `buck(0, 1, C)` is the dispersion term `-C / r^6` -/
 theorem C10_buck4_end (C r : ℝ) : ev [0, 1, C] buck_call r = -(C / r ^ 6) := by
   simp [ev, evalR, envOf, buck_call]
+  form_close
 
 /-! non-vacuity: the hypotheses of C10_exp_C2 are satisfiable (a constant spline: value 1 at both ends, zero slopes) -/
 example : Solves [0, 1, 1, 1, 0, 0, 0, 0] expA expB [0, 0, 0, 0, 0, 0] := by
